@@ -282,6 +282,10 @@ def execute(plan, out, log):
                     try:
                         B2 = build(scene, state=st, options=ic_options())
                     except AssertionError as e:
+                        if "does not converge" in str(e):
+                            # the contact fixed point ran out of iterations (e.g. a very slowly sliding contact): reported, not silent,
+                            # and no statement about consistency
+                            raise Discard("ic_fixed_point_nonconvergence")
                         out["violations"].append(violation("clean_rejected", "build", f"state reached by RATTLE after {steps} steps (|g|,|g_dot|<= {m:.1e}, penetration {pen:.1e}) was rejected: {e}"))
                         return
                     except Exception as e:
@@ -291,6 +295,8 @@ def execute(plan, out, log):
                     try:
                         c2.set_new_initial_state(q, u, t0=t, options=ic_options())
                     except AssertionError as e:
+                        if "does not converge" in str(e):
+                            raise Discard("ic_fixed_point_nonconvergence")
                         out["violations"].append(violation("clean_rejected", "set_new_initial_state", f"state reached by RATTLE after {steps} steps (|g|,|g_dot|<= {m:.1e}, penetration {pen:.1e}) was rejected: {e}"))
                         return
                     except Exception as e:
